@@ -252,15 +252,20 @@ class Peer:
     def __init__(self, loop, reader, proto):
         self.loop, self.reader, self.proto = loop, reader, proto
 
+    def _feed(self, data):
+        if not self.reader._eof:  # bytes arriving after the local side closed are dropped by the kernel
+            self.reader.feed_data(data)
+
     def feed_at(self, when, data):
         if len(data) > 0:
-            self.loop.call_at(when, self.reader.feed_data, data)
+            self.loop.call_at(when, self._feed, data)
 
     def eof_at(self, when):
         self.loop.call_at(when, self._eof)
 
     def _eof(self):
-        self.proto.eof_received()
+        if not self.reader._eof:
+            self.proto.eof_received()
 
     def reset_at(self, when, exc=None):
         self.loop.call_at(when, self.proto.connection_lost, exc or ConnectionResetError("scripted reset"))
